@@ -749,3 +749,60 @@ print('NOT-REPRODUCED'); sys.exit(0)
 '''
 
 PROBES = [("a rejected assignment to a file-system backed Selector changes nothing", FILES_REPLAY)]
+
+
+# a rejected assignment inside a batching scope: the scopes restore the queue and the flag on every exit
+# (verified for C05), so nothing is left queued for a later, unrelated dispatch
+_c02_base_mgr = contracts
+
+
+def contracts():
+    from contracts import c05 as _c05
+    extra = [c for c in _c05.contracts() if c.name in ("batch_call_watchers", "_batch_call_watchers", "discard_events")]
+    for c in extra:
+        c.prop = "C02"
+    return _c02_base_mgr() + extra
+
+
+SCOPES_REPLAY = '''import sys, os, itertools
+sys.path.insert(0, os.environ.get('PYVC_REPO', '/repo'))
+import param
+bad = []
+def make():
+    class P(param.Parameterized):
+        a = param.Number(0)
+        b = param.Number(0, bounds=(0, 10))
+    return P
+SCOPES = {'discard_events': lambda o: param.parameterized.discard_events(o),
+          'batch_call_watchers': lambda o: param.parameterized.batch_call_watchers(o),
+          'update context': lambda o: o.param.update(a=0.5)}
+REJECTED = {'o.b = 99': lambda o: setattr(o, 'b', 99), 'update(b=99)': lambda o: o.param.update(b=99),
+            'update(nope=1)': lambda o: o.param.update(nope=1)}
+for (sname, scope), (rname, rej), (lname, later), level in itertools.product(SCOPES.items(), REJECTED.items(), REJECTED.items(), ('instance', 'class')):
+    P = make()
+    o = P() if level == 'instance' else P
+    calls = []
+    o.param.watch(lambda e, calls=calls: calls.append((e.name, e.new)), ['a', 'b'])
+    try:
+        with scope(o):
+            o.a = 1                      # accepted, queued (or to be discarded)
+            rej(o)                       # refused: the exception leaves the scope
+    except ValueError:
+        pass
+    del calls[:]
+    va, vb = o.a, o.b
+    try:
+        later(o)
+    except ValueError:
+        pass
+    else:
+        bad.append('%s was accepted' % lname); continue
+    if calls:
+        bad.append('a scope (%s, %s level) left by the refused %s: the later refused %s invoked watchers with %r'
+                   % (sname, level, rname, lname, calls))
+if bad:
+    print('REPRODUCED: ' + bad[0]); sys.exit(1)
+print('NOT-REPRODUCED'); sys.exit(0)
+'''
+
+PROBES = PROBES + [("a batching scope left by a refused assignment leaves nothing queued", SCOPES_REPLAY)]
